@@ -3,7 +3,7 @@ import numpy as np
 from hypothesis import strategies as st
 
 from .. import gen, oracle
-from ..core import Violation, Refusal, require, sut, snap, snap_diff
+from ..core import Violation, Refusal, require, sut, snap, snap_diff, fresh_hvsrpy
 
 ID = "C09"
 RULE = ("Cases: 1-4 recordings (16-400 samples, drawn recipes, nested metadata; mixed time steps for the methods that allow "
@@ -63,9 +63,11 @@ def strategy(draw):
     spec["fcs"] = fcs
     if spec["width"] == 0.0 and draw(st.booleans()):
         spec["width"] = 0.3
-    history = draw(st.lists(st.sampled_from(["same", "same", "fresh", "other"]), min_size=1, max_size=3))
+    history = draw(st.lists(st.sampled_from(["same", "same", "fresh", "other", "collide"]), min_size=1, max_size=4))
     width2 = draw(st.one_of(gen.floats(0.01, 1), st.just(0.0)))
-    return dict(records=recs, spec=spec, history=history, width2=width2,
+    # "collide": the same configuration with one number replaced by a value a lossy cache key would confuse with it
+    collide = dict(field=draw(st.sampled_from(["width", "width", "bw", "fc", "azimuth"])), how=draw(gen.choice(gen.COLLIDERS)))
+    return dict(records=recs, spec=spec, history=history, width2=width2, collide=collide,
                 meta_kind=draw(st.sampled_from(["none", "files", "nested"])))
 
 
@@ -93,6 +95,38 @@ def _mutate_nested(meta):
             v += 1
     meta["added afterwards"] = 1
     meta["file name(s)"] = "renamed"
+
+
+def _collided(spec, c):
+    """spec with one number replaced by its collision variant (None when the variant leaves the valid domain)."""
+    sp = dict(spec)
+    f, how = c["field"], c["how"]
+    if f == "width":
+        y = gen.collide(spec["width"], how)
+        if not (0.0 <= y <= 1.0) or y == spec["width"]:
+            return None
+        sp["width"] = y
+    elif f == "bw":
+        if spec["op"] == "savitzky_and_golay":
+            return None
+        y = gen.collide(spec["bw"], how)
+        if not (0.5 * spec["bw"] <= y <= 2 * spec["bw"]) or y == spec["bw"]:
+            return None
+        sp["bw"] = y
+    elif f == "fc":
+        y = gen.collide(spec["fcs"][0], how)
+        if not (0.999 * spec["fcs"][0] <= y <= 1.001 * spec["fcs"][0]) or y in spec["fcs"]:
+            return None
+        sp["fcs"] = [y] + list(spec["fcs"][1:])
+    else:
+        az = spec.get("azimuth")
+        if not isinstance(az, (int, float)):
+            return None
+        y = gen.collide(az, how)
+        if not (0 <= y < 180) or y == az:
+            return None
+        sp["azimuth"] = y
+    return sp
 
 
 def check_case(case):
@@ -123,10 +157,24 @@ def check_case(case):
         inputs_unchanged(what)
         return res
 
+    def pristine(sp, what, got_snap):
+        """The same call in a pristine copy of the library (new module state) on recordings rebuilt from the recipes."""
+        h2 = fresh_hvsrpy()
+        recs2 = [gen.build_recording(h2, r, meta=_meta(case["meta_kind"], i)) for i, r in enumerate(case["records"])]
+        try:
+            ref = sut(h2.process, recs2, gen.make_settings(h2, sp), allow=(ValueError,), what=f"process[{m}] in a pristine library copy")
+        except Refusal:
+            raise Violation(f"{m}: {what} succeeded, but the same call is refused by a pristine copy of the library")
+        rs = snap(ref)
+        if rs != got_snap:
+            raise Violation(f"{m}: {what} returns a result that differs from the same call made first in a pristine copy of the "
+                            f"library (the result depends on earlier calls): {snap_diff(rs, got_snap)}")
+
     s0 = gen.make_settings(hv, spec)
     r0 = call(s0, spec, "first call")
     if r0 is None:
         return dict(labels=labels + ["refused"], nontrivial=False)
+    pristine(spec, "the first call of this case (after the calls of earlier cases)", snap(r0))
     settings_objs.append((s0, spec))
     results.append((r0, snap(r0)))
     first_snap = results[0][1]
@@ -152,12 +200,26 @@ def check_case(case):
                     raise Violation(f"{m}: an identical fresh settings object gives a different result on the same recordings: {snap_diff(first_snap, sn)}")
                 settings_objs.append((s, spec))
                 results.append((r, sn))
+        elif op == "collide" and case.get("collide"):
+            sp = _collided(spec, case["collide"])
+            if sp is None:
+                continue
+            s = gen.make_settings(hv, sp)
+            r = call(s, sp, "call with a nearly identical configuration")
+            if r is not None:
+                sn = snap(r)
+                pristine(sp, f"a call whose {case['collide']['field']} differs from the previous one by '{case['collide']['how']}'", sn)
+                settings_objs.append((s, sp))
+                results.append((r, sn))
+                labels.append("collide-" + case["collide"]["field"])
         else:
             s = gen.make_settings(hv, spec2)
             r = call(s, spec2, "call with another configuration")
             if r is not None:
+                sn = snap(r)
+                pristine(spec2, "a call with another taper width", sn)
                 settings_objs.append((s, spec2))
-                results.append((r, snap(r)))
+                results.append((r, sn))
             labels.append("interleaved-other")
 
     # results must not change when recordings / settings are edited afterwards
